@@ -37,7 +37,7 @@ def tlc_scripts(tier, enum_scripts):
     """Behaviours of the specification (random walks of the bounded model, seeded) turned into
     request scripts: the specification picks configuration, request type and credential order,
     the harness's parameter table supplies the parameters."""
-    n_sim = 40 if tier == "quick" else 1200
+    n_sim = 40 if tier == "quick" else 500
     g = run_tlc("MCControlAuth", "GenControlAuth", workers=1, simulate=n_sim, depth=100, seed_=seed(),
                 timeout=900, tag="gen-c18")
     exported = tlc_printed(g["stdout"], "SCRIPT")
@@ -100,7 +100,8 @@ def run(prop, tier, replay):
         start = sum(len(r) for r in runs[:ri])
         ev = rows[b["line"] - 1]
         why = sorted(b["why"])
-        key = "+".join(why) + f"@{b['exp']}:{b['t']}"
+        # the key names the failing clause, what the specification allowed instead, and the request type
+        key = f"handler-hang:{b['t']}" if why == ["handler-hang"] else "+".join(why) + f"@{b['exp']}:{b['t']}"
         cfg = runs[ri][0]["cfg"]
         rep.violation(key, {"script": scripts[ri], "why": why, "expected": b["exp"], "credential": b["c"],
                             "observed_required_role": b["req"], "observed_mutating": b["mut"],
